@@ -1,7 +1,7 @@
 (* Correspondence for the runtime properties C02 C06 C19: what real encoding/json did with the
    compiled generated types (reflection dump) against Rt/JsonDecode.v run on the declarations
    the converter model produces for the same program. *)
-From Verif Require Import Base.Str Base.Sort Gen.Gql Gen.Directive Gen.Convert Rt.JsonDecode Rt.JsonEncode Corr.Convcorr.
+From Verif Require Import Base.Str Base.Sort Gen.Gql Gen.Directive Gen.Convert Rt.JsonDecode Rt.Acyclic Rt.JsonEncode Corr.Convcorr.
 From Coq Require Import ZArith.
 
 Inductive rres := RErr | RPanic | ROk (v : gval).
@@ -111,7 +111,11 @@ Definition re_agrees (tm : typemap) (o : rt_obs) : bool :=
 
 Definition rt_agrees (c : rt_case) : bool :=
   match conv_model (r_prog c) with
-  | Ok (tm, _) => forallb (fun o => obs_agrees tm o && re_agrees tm o) (r_obs c)
+  | Ok (tm, _) =>
+      (* the hypothesis of the termination theorem (Proofs/DecodeTerm.v) holds of the type map
+         generated for this program: no cycle of embedded structs / implementations *)
+      same_json_acyclicb tm
+      && forallb (fun o => obs_agrees tm o && re_agrees tm o) (r_obs c)
   | _ => false
   end.
 
